@@ -46,3 +46,19 @@ Proof.
   change None with (option_map render None).
   rewrite !map_nth. f_equal. now apply session_requests_repeat_lemma.
 Qed.
+
+(* at most one address can qualify, so the map order of the search cannot show: two different second
+   frames are counted on disjoint sets of samples *)
+Lemma handler_frame_unique_lemma (n c1 c2 : Z) :
+  (0 < c1)%Z -> (0 < c2)%Z -> (c1 + c2 <= n)%Z ->
+  handler_frame_qualifies n c1 = true -> handler_frame_qualifies n c2 = false.
+Proof.
+  unfold handler_frame_qualifies. intros P1 P2 S Q. apply Z.leb_le in Q. apply Z.leb_gt.
+  pose proof (Z.div_mod n 32 ltac:(lia)) as D. pose proof (Z.mod_pos_bound n 32 ltac:(lia)) as B. lia.
+Qed.
+
+(* measured against the samples that HAVE a second frame (keeping the tolerance n/32) two addresses can qualify *)
+Lemma handler_frame_against_deep_stacks_not_unique_witness :
+  let n := 64%Z in let stacks := 4%Z in let c1 := 2%Z in let c2 := 2%Z in
+  (c1 + c2 <= stacks)%Z /\ (stacks - n / 32 <=? c1)%Z = true /\ (stacks - n / 32 <=? c2)%Z = true.
+Proof. vm_compute. repeat split; discriminate. Qed.
